@@ -98,6 +98,18 @@ func (c *conditionLocker) waitIfLock() {
 	c.lockMu.Unlock()
 }
 
+// waitIfLockAndAdd waits until the lock is released and adds one to wg before
+// anyone can take the lock again. Whoever takes the lock and then waits for
+// wg is therefore sure that nobody who passed the gate is still on its way.
+func (c *conditionLocker) waitIfLockAndAdd(wg *sync.WaitGroup) {
+	c.lockMu.Lock()
+	for c.bLock {
+		c.lockCnd.Wait()
+	}
+	wg.Add(1)
+	c.lockMu.Unlock()
+}
+
 type SecureChannel struct {
 	endpointURL string
 
@@ -923,8 +935,20 @@ func (s *SecureChannel) sendRequestWithTimeout(
 	timeout time.Duration,
 	h ResponseHandler) error {
 
-	verifPoint("sc.send.beforeAdd")
 	s.pendingReq.Add(1)
+	return s.sendPendingRequest(ctx, req, reqID, instance, authToken, timeout, h)
+}
+
+// sendPendingRequest sends a request which has been added to pendingReq.
+func (s *SecureChannel) sendPendingRequest(
+	ctx context.Context,
+	req ua.Request,
+	reqID uint32,
+	instance *channelInstance,
+	authToken *ua.NodeID,
+	timeout time.Duration,
+	h ResponseHandler) error {
+
 	respRequired := h != nil
 
 	ch, err := s.sendAsyncWithTimeout(ctx, req, reqID, instance, authToken, respRequired, timeout)
@@ -990,13 +1014,20 @@ func (s *SecureChannel) SendRequest(ctx context.Context, req ua.Request, authTok
 }
 
 func (s *SecureChannel) SendRequestWithTimeout(ctx context.Context, req ua.Request, authToken *ua.NodeID, timeout time.Duration, h ResponseHandler) error {
-	s.reqLocker.waitIfLock()
+	// The request must count as pending before the active instance is
+	// fetched. Otherwise a renewal can start in between: it finds no pending
+	// request, hands the sequence number over to the new instance and this
+	// request then goes out on the old instance with a number that the
+	// renewal has used already.
+	verifPoint("sc.send.beforeAdd")
+	s.reqLocker.waitIfLockAndAdd(&s.pendingReq)
 	active, err := s.getActiveChannelInstance()
 	if err != nil {
+		s.pendingReq.Done()
 		return err
 	}
 
-	return s.sendRequestWithTimeout(ctx, req, s.nextRequestID(), active, authToken, timeout, h)
+	return s.sendPendingRequest(ctx, req, s.nextRequestID(), active, authToken, timeout, h)
 }
 
 func (s *SecureChannel) sendAsyncWithTimeout(
